@@ -420,6 +420,8 @@ structure Kind where
   gets : List GetEntry
   /-- third argument of `mpt_property_match` in the getter (none = -1, full names only) -/
   matchLen : Option Nat
+  /-- names the getter replaces by a listed name before the lookup (full comparison, case ignored) -/
+  getAlias : List (Str × Str)
   sets : List SetEntry
   /-- getter special: entry index whose value reads `log` while flag `bit` of member `flags` is set -/
   logAt : Option (Nat × Nat × Nat)
@@ -693,7 +695,16 @@ def Act.run (k : Kind) (tab : List NamedColor) (a : Act) (o : Obj) (src : Src) (
     | .typed t x =>
       match convTyped 'f' t x with
       | .val y _ => ⟨o.put f y, .ok 0⟩
-      | _ => ⟨o, .unsup⟩
+      | _ =>
+        -- a double: refused as 'f', read as 'd' and narrowed when it lies inside the float range
+        match t, x with
+        | 'd', .flt fl =>
+          let top : Int := (log2 fl.m.natAbs : Int) + fl.e
+          if fl.m = 0 then ⟨o.put f x, .ok 0⟩
+          else if top ≥ 128 then ⟨o, .err .BadValue⟩
+          else if fl.m.natAbs < 16777216 ∧ top ≥ -126 then ⟨o.put f x, .ok 0⟩
+          else ⟨o, .unsup⟩
+        | _, _ => ⟨o, .unsup⟩
   | .fpoint f lo hi retLen =>
     match src with
     | .null => ⟨(o.put f (k.dflt f)).put (f + 1) (k.dflt (f + 1)), .ok 0⟩
@@ -731,6 +742,7 @@ def Act.run (k : Kind) (tab : List NamedColor) (a : Act) (o : Obj) (src : Src) (
       | .none => ⟨o.put f (k.dflt f), .ok 0⟩
       | .val x _ => ⟨o.put f x, .ok 0⟩
       | .unsup => ⟨o, .unsup⟩
+      | .err .BadValue => ⟨o, .err .BadValue⟩              -- a number outside the range is no letter sequence
       | .err _ => ⟨o.put f (.int (alignLetters (v.getD []) 0 0)), .ok 0⟩
     | .typed t x =>
       match convTyped 'y' t x with
@@ -745,6 +757,7 @@ def Act.run (k : Kind) (tab : List NamedColor) (a : Act) (o : Obj) (src : Src) (
       | .none => ⟨o.put f (k.dflt f), .ok 0⟩
       | .val x _ => ⟨o.put f x, .ok 0⟩
       | .unsup => ⟨o, .unsup⟩
+      | .err .BadValue => ⟨o, .err .BadValue⟩
       | .err _ => ⟨o.put f (.int (clipLetters (v.getD []) 0)), .ok 0⟩
     | .typed t x =>
       match convTyped 'y' t x with
@@ -825,7 +838,8 @@ inductive Found where
   | refused
   deriving Repr, DecidableEq
 
-def Kind.lookup (k : Kind) (name : Str) : Found :=
+def Kind.lookup (k : Kind) (name0 : Str) : Found :=
+  let name := match k.getAlias.find? (fun a => eqNoCase name0 a.1) with | some a => a.2 | Option.none => name0
   if ¬ k.single.isEmpty ∧ name.length = 1 then
     match k.single.find? (fun g => g.name == name) with
     | some g => .single g
